@@ -81,6 +81,7 @@ Module Site.
   Definition af_ratio_pos : N := 13.  (* delta_list.rs:155 PosDecimal::try_from(ratio).unwrap *)
   Definition sfla_total : N := 14.    (* tx.rs:351 SflaTxSpecifics::total_amount *)
   Definition split_balance : N := 15. (* delta_list.rs Split arm: GEZ::try_from(balance * post / pre).unwrap *)
+  Definition buy_all : N := 16.       (* delta_list.rs Buy arm: GEZ::try_from(all_affiliates_share_balance_after(..)).unwrap *)
   Definition set_latest_acb : N := 20.   (* portfolio_status.rs:92 *)
   Definition set_latest_all : N := 21.   (* portfolio_status.rs:100 *)
   Definition init_balance : N := 22.     (* portfolio_status.rs:40 *)
